@@ -244,6 +244,7 @@ impl<F: Fam> Ctx<F> {
         let take_n = take.map_or(n, |t| (t as usize * (n + 1)) >> 16);
         let mut out: Vec<Item> = Vec::with_capacity(n + 8);
         let mut errs: Vec<String> = Vec::with_capacity(8);
+        self.forget_in_flight = forget;
         let ((out, errs), obs) = self.observe(s, false, &[C08], move |m| {
             let mut d = m.drain();
             let mut rem = n;
@@ -294,6 +295,7 @@ impl<F: Fam> Ctx<F> {
             }
             let st = self.st(s);
             self.meta[s].live = if st.hook.main_buckets > 1 { 1 } else { 0 };
+            self.forget_in_flight = false;
         }
         self.slots[s].model.clear();
         if obs.post.len != 0 {
